@@ -82,9 +82,9 @@ PROPS.update({
     ),
     "C18": dict(
         v_units=["prm"], level="proof",
-        explanation="Verus proves on the real PRM code: roadmap invariant rm_graph (adjacency in range, no self-links, no duplicates, symmetric), rm_valid, rm_checked and rm_edges_le are preserved by construct_roadmap; the roadmap states are exactly the valid samples drawn, in order (ghost log); every link satisfies dist < radius and check_motion (link_list); a repeated construct_roadmap and set_problem_definition / solve leave states and adjacency unchanged; setup clears. Query soundness: the BFS parent map is a forest rooted at checked start connections whose edges are roadmap edges (pm_ok), the goal index satisfies the goal, and the returned path is start + that chain. Query completeness: start connections and goal milestones are exactly the filtered index sets, every finished BFS node is not a goal and has all its neighbours visited, visited = queued or finished; hence `NoSolutionFound` is returned only if no milestone satisfying the goal is reachable from a start connection by roadmap edges (no_reachable_goal, proved by induction over walks).",
+        explanation="Verus proves on the real PRM code: roadmap invariant rm_graph (adjacency in range, no self-links, no duplicates, symmetric), rm_valid, rm_checked and rm_edges_le are preserved by construct_roadmap; the roadmap states are exactly the valid samples drawn, in order (ghost log); every link satisfies dist < radius and check_motion (link_list); a repeated construct_roadmap and set_problem_definition / solve leave states and adjacency unchanged; setup clears. Query soundness: the BFS parent map is a forest rooted at checked start connections whose edges are roadmap edges (pm_ok), the goal index satisfies the goal, and the returned path is start + that chain. Query completeness: start connections and goal milestones are exactly the filtered index sets, every finished BFS node is not a goal and has all its neighbours visited, visited = queued or finished; hence `NoSolutionFound` is returned only if no milestone satisfying the goal is reachable from a start connection by roadmap edges (no_reachable_goal, proved by induction over walks). Hop-minimality: every visited node's BFS depth is at most its position in any walk from a start connection (bfs_min_ok), the queue is sorted by depth within a window of one (queue_depths), in front of every unvisited node of a walk there is a queued node (lemma_frontier_witness); hence the first goal milestone dequeued has minimal depth and the returned path (depth + 1 milestones) visits the fewest milestones possible (fewest_milestones).",
         assumptions=COMMON_ASSUME + ["set_problem_definition is called with a problem over an equal space (explicit precondition)"],
-        not_covered=["hop-minimality (the returned path visits the fewest milestones possible): the BFS level-monotone queue invariant is not discharged"],
+        not_covered=["'exactly the valid samples drawn' is proved for one construct_roadmap call (ghost log of accepted samples); uniformity / independence of the samples is C14"],
     ),
 })
 
@@ -137,3 +137,14 @@ PROPS.update({
 })
 for _k in ("C09", "C10", "C11", "C12", "C13"):
     PENDING.pop(_k, None)
+
+PROPS["C20"] = dict(
+    v_units=["py_wrappers", "js_wrappers"], level="proof",
+    explanation="Verus on the real wrapper bodies (oxmpl-py: 6 StateValidityChecker impls, PyGoal is_satisfied / distance_goal / sample_goal; oxmpl-js: call_is_valid + 6 impls, call_is_satisfied / call_distance_goal / call_sample_goal + 18 impls) against pyo3 / js-sys stubs that say only `a call returns an object or raises`, `extract::<bool>` / `as_bool` succeed only on a boolean. Proved: the predicate each wrapper implements (the trait's spec `valid` / `sat`, which is what every planner theorem is parametric in) IS the fail-closed function: true only if the callback returned the boolean True; a raising / ill-typed distance_goal yields +inf; a raising / ill-typed sample_goal yields Err(GoalRegionUnsatisfiable), never a state. Because the planner contracts are parametric in `valid` / `sat` and the wrappers are stateless, the planner's result is the one obtained with callbacks returning False on the failing states, and no returned path goes through a state on which the callback failed (C01 instantiated with this `valid`).",
+    assumptions=["pyo3 stubs (verus/prelude/py.rs) and js-sys stubs (verus/prelude/js.rs): call1 / call_method / Function::call return Ok(obj) or Err; extract::<bool> / as_bool are Some only for a boolean; Py::new may fail",
+                 "faithful Clone of the concrete oxmpl state types (they derive Clone)",
+                 "the composition with the planner theorems is by instantiation of their `valid` / `sat` parameters (stated, not a discharged obligation)",
+                 "Verus 0.2026.09.13 / Z3; rewrite rules R4, R12, R17 and the unit rules RJ1-RJ3 (hit counts in coverage.rewrite_rule_hits)"],
+    not_covered=["the Python side of the FFI (CPython semantics of exceptions / truthiness) beyond the stub contracts", "the wasm build cannot be executed in this sandbox: oxmpl-js is verified as text only"],
+)
+PENDING.pop("C20", None)
